@@ -181,34 +181,40 @@ def replay(scn):
     viol, calls = [], 0
     d = i["d"] - 1
     dt = a_abs["dtype"]
-    left, right = (-1.5, -2.5) if i["fills"] else (np.nan, np.nan)
-    vals = []
-    for t in exp["cells"]:
-        if t["k"] == "left":
-            vals.append(left)
-        elif t["k"] == "right":
-            vals.append(right)
-        else:
-            lo, hi = A.cell_enc(t["lo"], dt), A.cell_enc(t["hi"], dt)
-            vals.append(lo + (t["num"] / t["den"]) * (hi - lo))
-    # variant "nanhi": the largest cell of the array holds NaN - a point exactly on a node reproduces that node's value whatever its
-    # neighbours hold (weight 0 does not bring the neighbour's NaN in); between nodes NaN propagates
     nan_cell = max(a_abs["cells"]) if dt == "f" and len(a_abs["cells"]) >= 2 else None
-    vals_nan = []
-    for t, v in zip(exp["cells"], vals):
-        if t["k"] in ("left", "right") or nan_cell is None:
-            vals_nan.append(v)
-        elif t["num"] == 0:
-            vals_nan.append(np.nan if t["lo"] == nan_cell else A.cell_enc(t["lo"], dt))
-        elif t["num"] == t["den"]:
-            vals_nan.append(np.nan if t["hi"] == nan_cell else A.cell_enc(t["hi"], dt))
-        else:
-            vals_nan.append(np.nan if nan_cell in (t["lo"], t["hi"]) else v)
+
+    def expected(left, right):
+        vals = []
+        for t in exp["cells"]:
+            if t["k"] == "left":
+                vals.append(left)
+            elif t["k"] == "right":
+                vals.append(right)
+            else:
+                lo, hi = A.cell_enc(t["lo"], dt), A.cell_enc(t["hi"], dt)
+                vals.append(lo + (t["num"] / t["den"]) * (hi - lo))
+        # variant "nanhi": the largest cell of the array holds NaN - a point exactly on a node reproduces that node's value whatever its
+        # neighbours hold (weight 0 does not bring the neighbour's NaN in); between nodes NaN propagates
+        vals_nan = []
+        for t, v in zip(exp["cells"], vals):
+            if t["k"] in ("left", "right") or nan_cell is None:
+                vals_nan.append(v)
+            elif t["num"] == 0:
+                vals_nan.append(np.nan if t["lo"] == nan_cell else A.cell_enc(t["lo"], dt))
+            elif t["num"] == t["den"]:
+                vals_nan.append(np.nan if t["hi"] == nan_cell else A.cell_enc(t["hi"], dt))
+            else:
+                vals_nan.append(np.nan if nan_cell in (t["lo"], t["hi"]) else v)
+        return vals, vals_nan
+    # the fill values: ordinary numbers, falsy ones (0, 0.0) and a mix - a fill of 0 is a fill
+    FILLS = {0: (-1.5, -2.5), 1: (0, 0.0), 2: (0.0, -2.5)}
     for kind in ("i", "f", "u"):
         codec = A.LabelCodec(mixed=True)
         kinds = ["i"] * len(a_abs["dims"])
         kinds[d] = kind
         for form in (0, 1, 2):
+            left, right = FILLS[form] if i["fills"] else (np.nan, np.nan)
+            vals, vals_nan = expected(left, right)
             a = A.gamma(a_abs, codec, kinds)
             before = A.snapshot(a)
             newx = codec.enc_seq(i["new"], "f")
